@@ -216,7 +216,8 @@ class SFTPServer(BaseSFTP, SubsystemHandler):
         if attr._flags & attr.FLAG_AMTIME:
             os.utime(filename, (attr.st_atime, attr.st_mtime))
         if attr._flags & attr.FLAG_SIZE:
-            with open(filename, "w+") as f:
+            # "r+" (not "w+", which would empty the file before it is resized)
+            with open(filename, "r+") as f:
                 f.truncate(attr.st_size)
 
     # ...internals...
